@@ -114,6 +114,7 @@ macro_rules! c03_poisson_rej {
     };
 }
 //@ id: c03_poisson_rejection_f64
+//@ besteffort: yes
 //@ prop: C03
 //@ tier: thorough
 //@ cap: 1500
@@ -122,6 +123,7 @@ macro_rules! c03_poisson_rej {
 //@ assumes: utils::ziggurat, libm::{exp,log,pow,sqrt} by contract
 c03_poisson_rej!(c03_poisson_rejection_f64, f64, 1e15);
 //@ id: c03_poisson_rejection_f32
+//@ besteffort: yes
 //@ prop: C03
 //@ tier: thorough
 //@ cap: 1500
